@@ -5,7 +5,8 @@
 Require Import Norad.Run.RunBase Norad.Model.Interleave.
 Open Scope N_scope.
 
-Definition ctask := (N * list N * option N)%type.     (* key, interned names (inner name, bases), payload or failure *)
+Definition ctask := (N * option str * list N * option N)%type.
+  (* key, plain file name of the contents value (None: not plain), interned names (inner name, bases), payload or failure *)
 Definition clayer := (N * list ctask)%type.           (* layer name, tasks in the order of contents *)
 Definition case := (list str * list clayer * N)%type. (* table, layers, seed *)
 
@@ -22,9 +23,9 @@ Definition mapi {A B} (f : N -> A -> B) (l : list A) : list B := mapi_aux f 0 l.
 
 (** every request is its own allocation *)
 Definition mk_task (t : list str) (li ti : N) (ct : ctask) : task :=
-  let '(k, reqs, out) := ct in
+  let '(k, file, reqs, out) := ct in
   let base := li * 1099511627776 + ti * 1048576 in
-  mkTask (tbl t k, base) (mapi (fun j r => (tbl t r, base + 1 + j)) reqs)
+  mkTask (tbl t k, base) file (mapi (fun j r => (tbl t r, base + 1 + j)) reqs)
          (match out with Some p => TOk p | None => TErr 1 end).
 Definition mk_layers (t : list str) (ls : list clayer) : list layer_in :=
   mapi (fun li l => (tbl t (fst l), mapi (fun ti ct => mk_task t li ti ct) (snd l))) ls.
@@ -49,7 +50,7 @@ Definition sched_for (seed : N) (li : N) (ts : list task) : list nat :=
   | 0 => gen_sched (2 * total_steps ts) x n 1
   | 1 => gen_sched (total_steps ts) x n 5
   | _ => (* the second half of the threads runs first, in reverse, then a random tail *)
-         flat_map (fun i => repeat i (3 * length (prog_of (nth i ts (mkTask ([], 0%N) [] (TErr 0%N)))) + 1)%nat)
+         flat_map (fun i => repeat i (3 * length (prog_of (nth i ts (mkTask ([], 0%N) None [] (TErr 0%N)))) + 1)%nat)
                   (rev (seq (length ts / 2) (length ts - length ts / 2)))
          ++ gen_sched (total_steps ts) x n 2
   end.
